@@ -899,6 +899,14 @@ impl Mp4TrackWriter {
     pub(crate) fn write_end<W: Write + Seek>(&mut self, writer: &mut W) -> Result<TrakBox> {
         self.write_chunk(writer)?;
 
+        // Without a sync sample table every sample counts as a sync sample: a track
+        // that was given samples but no sync sample needs an (empty) table.
+        if self.trak.mdia.minf.stbl.stss.is_none()
+            && self.trak.mdia.minf.stbl.stsz.sample_count > 0
+        {
+            self.trak.mdia.minf.stbl.stss = Some(StssBox::default());
+        }
+
         let max_sample_size = self.max_sample_size();
         if let Some(ref mut mp4a) = self.trak.mdia.minf.stbl.stsd.mp4a {
             if let Some(ref mut esds) = mp4a.esds {
